@@ -345,6 +345,33 @@ enum SOp {
     PanicWhileLocked,
 }
 
+/// One locked update: lock, derive the new map from the current one, replace, unlock - run
+/// normally, or from a destructor while a panic unwinds (a device that unplugs its memory when it
+/// is dropped): the replacement is published either way.
+fn publish(h: &Atomic, derive: &mut dyn FnMut(&Mem) -> Mem, unwinding: bool) {
+    let mut body = || {
+        let g = h.lock().unwrap_or_else(|e| e.into_inner());
+        let cur = h.memory();
+        let new = derive(&cur);
+        drop(cur);
+        g.replace(new);
+    };
+    if !unwinding {
+        body();
+    } else {
+        struct OnDrop<'a>(&'a mut dyn FnMut());
+        impl Drop for OnDrop<'_> {
+            fn drop(&mut self) {
+                (self.0)()
+            }
+        }
+        let _ = crate::crash::quiet_unwind(|| {
+            let _d = OnDrop(&mut body);
+            std::panic::panic_any(0u8);
+        });
+    }
+}
+
 fn sequential(ctx: &Ctx, depth: usize) {
     // state key: (current map, multiset of held snapshot maps, owned maps, number of handles);
     // a map is a list of (start, region instance): the same guest address can be plugged again
@@ -378,6 +405,7 @@ fn sequential(ctx: &Ctx, depth: usize) {
         let mut ever: Vec<(u64, usize, usize, u32)> = vec![(0x10_0000, ptr_of[&0x10_0000].0, acc.borrow().len(), 0)];
         let mut bad: Option<(String, String)> = None;
         let mut poisoned = false;
+        let mut updates = 0u32;
         let mut apply = |op: &SOp, handles: &mut Vec<Atomic>, snaps: &mut Vec<(vm_memory::GuestMemoryLoadGuard<Mem>, Vec<Inst>)>, owned: &mut Vec<(Arc<Mem>, Vec<Inst>)>, current: &mut Vec<Inst>| -> bool {
             match op {
                 SOp::CloneHandle => {
@@ -451,9 +479,9 @@ fn sequential(ctx: &Ctx, depth: usize) {
                     acc.borrow_mut().extend(take_global_log());
                     ever.push((*s, r.as_ptr() as usize, acc.borrow().len(), next_id));
                     let h = &handles[0];
-                    let g = h.lock().unwrap_or_else(|e| e.into_inner());
-                    let new = h.memory().insert_region(r).unwrap();
-                    g.replace(new);
+                    let mut r = Some(r);
+                    updates += 1;
+                    publish(h, &mut |cur: &Mem| cur.insert_region(r.take().unwrap()).unwrap(), updates % 3 == 2);
                     current.push((*s, next_id));
                     next_id += 1;
                     current.sort();
@@ -468,15 +496,21 @@ fn sequential(ctx: &Ctx, depth: usize) {
                     acc.borrow_mut().extend(take_global_log());
                     ever.push((*s, r.as_ptr() as usize, acc.borrow().len(), next_id));
                     let h = handles.last().unwrap();
-                    let g = h.lock().unwrap_or_else(|e| e.into_inner());
-                    let cur = h.memory();
-                    let new = if current.len() == 1 {
-                        GuestMemoryMmap::from_arc_regions(vec![r]).unwrap()
-                    } else {
-                        cur.remove_region(GuestAddress(*s), 4096).unwrap().0.insert_region(r).unwrap()
-                    };
-                    drop(cur);
-                    g.replace(new);
+                    let mut r = Some(r);
+                    let single = current.len() == 1;
+                    let start = *s;
+                    updates += 1;
+                    publish(
+                        h,
+                        &mut |cur: &Mem| {
+                            if single {
+                                GuestMemoryMmap::from_arc_regions(vec![r.take().unwrap()]).unwrap()
+                            } else {
+                                cur.remove_region(GuestAddress(start), 4096).unwrap().0.insert_region(r.take().unwrap()).unwrap()
+                            }
+                        },
+                        updates % 3 == 2,
+                    );
                     current.retain(|x| x.0 != *s);
                     current.push((*s, next_id));
                     next_id += 1;
@@ -489,14 +523,21 @@ fn sequential(ctx: &Ctx, depth: usize) {
                     // (removing the last region publishes an empty map; every other time an
                     // emptied map is published as a freshly constructed one)
                     let h = handles.last().unwrap();
-                    let g = h.lock().unwrap_or_else(|e| e.into_inner());
-                    let (new, _removed) = h.memory().remove_region(GuestAddress(*s), 4096).unwrap();
-                    if current.len() == 1 && serial % 2 == 1 {
-                        drop(new);
-                        g.replace(GuestMemoryMmap::new());
-                    } else {
-                        g.replace(new);
-                    }
+                    let fresh_empty = current.len() == 1 && serial % 2 == 1;
+                    let start = *s;
+                    updates += 1;
+                    publish(
+                        h,
+                        &mut |cur: &Mem| {
+                            let (new, _removed) = cur.remove_region(GuestAddress(start), 4096).unwrap();
+                            if fresh_empty {
+                                GuestMemoryMmap::new()
+                            } else {
+                                new
+                            }
+                        },
+                        updates % 3 == 2,
+                    );
                     current.retain(|x| x.0 != *s);
                 }
             }
@@ -586,7 +627,7 @@ fn sequential(ctx: &Ctx, depth: usize) {
         sl.sort();
         let mut ol: Vec<Vec<Inst>> = owned.iter().map(|s| canon(&s.1)).collect();
         ol.sort();
-        let key: Key = (canon(&current), sl, ol, handles.len() | if poisoned { 1 << 8 } else { 0 });
+        let key: Key = (canon(&current), sl, ol, handles.len() | if poisoned { 1 << 8 } else { 0 } | ((updates as usize % 3) << 9));
         if !seen.insert(key) || hist.len() >= depth {
             continue;
         }
@@ -634,7 +675,7 @@ fn trivial_address_spaces(ctx: &Ctx) {
 
 pub fn run(tier: Tier, replay: Option<String>) -> i32 {
     let ctx = crate::new_ctx("C11", tier, "model_checking", &replay);
-    ctx.set_rule("E3: stateless DFS over the interleavings, within the stated preemption bound, of real updater threads (lock; memory(); derive a map with one more / one less region or with one region swapped for a fresh one of the same range; replace; unlock) and reader threads (memory(); read regions and tags; clone the snapshot; into_inner; drop; re-read; drop) on one GuestMemoryAtomic<GuestMemoryMmap> shared through cloned handles, or (three configurations) through one handle that all threads use by reference; scheduling points: every ArcSwap load/store and Mutex lock/unlock of the crate (hook H3, blocking on the update mutex modelled) plus the harness steps between a reader's operations. Oracle per schedule: every snapshot is exactly one published map (maps compared as lists of (start, region instance)), readable (tags through the mappings), unchanged when re-read; snapshots taken after a replacement completed show it; the final map contains every updater's region; no deadlock; after all handles are dropped every region was munmap'ed exactly once (interposed log). E1: BFS over all sequential histories up to the stated depth of {clone handle, drop handle, snapshot, clone snapshot, into_inner, drop snapshot/owned, an updater that panics while it holds the update lock (later updaters recover the guard from the PoisonError), lock+replace with insert/remove (down to the empty map, published as derived or as GuestMemoryMmap::new())/swap (same range, fresh region)}, state = (current map, held snapshots, owned maps, handles), with the owner-graph invariant mapped <=> reachable checked against the interposed munmap log in every state.");
+    ctx.set_rule("E3: stateless DFS over the interleavings, within the stated preemption bound, of real updater threads (lock; memory(); derive a map with one more / one less region or with one region swapped for a fresh one of the same range; replace; unlock) and reader threads (memory(); read regions and tags; clone the snapshot; into_inner; drop; re-read; drop) on one GuestMemoryAtomic<GuestMemoryMmap> shared through cloned handles, or (three configurations) through one handle that all threads use by reference; scheduling points: every ArcSwap load/store and Mutex lock/unlock of the crate (hook H3, blocking on the update mutex modelled) plus the harness steps between a reader's operations. Oracle per schedule: every snapshot is exactly one published map (maps compared as lists of (start, region instance)), readable (tags through the mappings), unchanged when re-read; snapshots taken after a replacement completed show it; the final map contains every updater's region; no deadlock; after all handles are dropped every region was munmap'ed exactly once (interposed log). E1: BFS over all sequential histories up to the stated depth of {clone handle, drop handle, snapshot, clone snapshot, into_inner, drop snapshot/owned, an updater that panics while it holds the update lock (later updaters recover the guard from the PoisonError), every third update of a history carried out from a destructor while a panic unwinds, lock+replace with insert/remove (down to the empty map, published as derived or as GuestMemoryMmap::new())/swap (same range, fresh region)}, state = (current map, held snapshots, owned maps, handles), with the owner-graph invariant mapped <=> reachable checked against the interposed munmap log in every state.");
     ctx.assume("ArcSwap::load/store are treated as atomic steps (arc_swap internals execute for real but are not interleaved internally); SC");
     if let Some(r) = ctx.replay_of.clone() {
         let c = &r["case"];
